@@ -2,6 +2,7 @@ package loadbalancer
 
 import (
 	"fmt"
+	"github.com/0xReLogic/Helios/internal/circuitbreaker"
 	"net/http"
 	"testing"
 	"time"
@@ -28,7 +29,12 @@ var c07yEvents = []string{"req-ok", "req-500", "req-refused(502)", "req-abort", 
 	"upgrade-request-ok", "upgrade-request-500", "POST-500", "HEAD-ok", "OPTIONS-500",
 	// the client has gone before the backend answers (its request context is cancelled): an
 	// aborted exchange, which counts as a failure - in particular it is no successful trial
-	"req-client-gone"}
+	"req-client-gone",
+	// every backend is taken out of rotation for 10 s (as the passive health checks do after
+	// failed responses): a request the breaker admits then finds no backend and is answered
+	// 503 by the balancer itself - no backend was asked, so that is neither a successful nor a
+	// failed trial
+	"eject-all-backends-for-10s", "clock+11s"}
 
 type c07yInst struct {
 	s   *vrt.Sched
@@ -36,6 +42,8 @@ type c07yInst struct {
 	p   c07yParams
 	ref *vmodel.Breaker
 	out string
+	// ejectedUntil: every backend is outside the rotation until then (injected)
+	ejectedUntil time.Duration
 }
 
 func (in *c07yInst) LastOutcome() string { return in.out }
@@ -61,6 +69,16 @@ func (in *c07yInst) Step(ev int) *vh.HViol {
 		return nil
 	case 6:
 		in.s.AdvanceQuiet(3100 * time.Millisecond)
+		return nil
+	case 17:
+		for _, b := range in.k.lb.strategy.GetBackends() {
+			in.k.lb.MarkBackendUnhealthy(b, 10*time.Second)
+		}
+		in.ejectedUntil = in.s.Clock() + 10*time.Second
+		in.out = "ejected"
+		return nil
+	case 18:
+		in.s.AdvanceQuiet(11 * time.Second)
 		return nil
 	}
 	for _, st := range in.k.stubs {
@@ -95,6 +113,21 @@ func (in *c07yInst) Step(ev int) *vh.HViol {
 		}
 		return nil
 	}
+	if sent == 0 && now <= in.ejectedUntil && res.Status == 503 {
+		// admitted by the breaker, answered by the balancer: no backend was asked. Whether the
+		// trial slot it took is given back is left open (the reference follows the breaker's own
+		// count); what the statement fixes is that such a request is no successful trial - the
+		// breaker must not close on it - and, being no failed proxied request, no failure either
+		was := in.ref.State
+		if st := stateName07(in.k.lb.circuitBreaker.State()); st != was {
+			return &vh.HViol{Key: "C07/sys/state-changed-by-a-request-that-reached-no-backend", What: fmt.Sprintf("%s: at t=%v the breaker was %s and a request it admitted was answered 503 \"no healthy backend\" by the balancer itself, without a backend being asked; afterwards the breaker is %s (a trial that reaches no backend is neither a successful nor a failed one)", cfg, now, was, st)}
+		}
+		if was == "half" {
+			_, _, rc := in.k.lb.circuitBreaker.Counts()
+			in.ref.Req = int(rc)
+		}
+		return nil
+	}
 	if sent == 0 {
 		return &vh.HViol{Key: "C07/sys/request-not-forwarded/ref-" + in.ref.State, What: fmt.Sprintf("%s: at t=%v the reference breaker (%s) admits the request but no backend was contacted (status %d)", cfg, now, in.ref.State, res.Status)}
 	}
@@ -102,9 +135,19 @@ func (in *c07yInst) Step(ev int) *vh.HViol {
 	return nil
 }
 
+func stateName07(st circuitbreaker.State) string {
+	switch st {
+	case circuitbreaker.StateClosed:
+		return "closed"
+	case circuitbreaker.StateOpen:
+		return "open"
+	}
+	return "half"
+}
+
 func (in *c07yInst) Fingerprint() string {
 	m := in.ref.Canon(in.s.Clock(), 3200*time.Millisecond)
-	return vh.FingerprintClip(3200*time.Millisecond, in.k.lb.circuitBreaker, in.k.lb.strategy) + fmt.Sprintf("|%+v", m) + in.k.novel()
+	return vh.FingerprintClip(3200*time.Millisecond, in.k.lb.circuitBreaker, in.k.lb.strategy) + fmt.Sprintf("|%+v", m) + in.k.novel() + fmt.Sprint("|ejected:", in.ejectedUntil >= in.s.Clock())
 }
 
 func c07ySpec(p c07yParams, depth int) vh.HSpec {
